@@ -1,7 +1,7 @@
 (* C09 (b): proofs about the L1 list-surgery model PoolLinks.v: the doubly-linked-list invariant is preserved by
    MergeFrom (as coded after fix 7f37c9f), pvMoveBufferToHead, pvDeleteBuffer and the pvNewBlock insertion; the
    pre-fix MergeFrom violates it (concrete witness). *)
-From Coq Require Import ZArith List Bool Lia.
+From Coq Require Import ZArith List Bool Lia Permutation.
 From MomoCommon Require Import GenPrelude.
 From C09 Require Import PoolLinks.
 Import ListNotations.
@@ -102,6 +102,299 @@ Proof.
    repeat match goal with |- context [?a =? ?b] => destruct (Z.eqb_spec a b) end; simpl andb; try congruence; try lia).
 Qed.
 
+(* ---------- list-level effect of the MergeFrom loop and the dll invariant ---------- *)
+Lemma NoDup_app_disj (A B : list Z) x : NoDup (A ++ B) -> In x A -> In x B -> False.
+Proof.
+  induction A as [|a A IH]; simpl; intros ND HA HB; [destruct HA|].
+  inversion ND as [|? ? Na NDA]; subst. destruct HA as [E|HA].
+  - subst. apply Na. apply in_or_app. right. exact HB.
+  - apply IH; assumption.
+Qed.
+Lemma NoDup_app_l (A B : list Z) : NoDup (A ++ B) -> NoDup A.
+Proof.
+  induction A as [|x A IH]; simpl; intros H; [constructor|]. inversion H as [|? ? Nx ND]; subst.
+  constructor; [intro; apply Nx; apply in_or_app; left; assumption|auto].
+Qed.
+Lemma NoDup_app_r (A B : list Z) : NoDup (A ++ B) -> NoDup B.
+Proof. induction A as [|x A IH]; simpl; intros H; [exact H|]. inversion H; subst. auto. Qed.
+
+Lemma lastd_cases l : (l = [] /\ lastd l 0 = 0) \/ (l <> [] /\ In (lastd l 0) l).
+Proof. destruct l as [|x t]; [left; split; reflexivity|right; split; [congruence|apply lastd_in; congruence]]. Qed.
+
+Ltac ev := repeat match goal with |- context[?a =? ?b] => destruct (Z.eqb_spec a b); try congruence end;
+           cbn [negb andb]; try congruence; try reflexivity.
+
+Section Step.
+Variables (h : heap) (L1 R1 L2 R2 : list Z) (b head1 head2 : Z).
+Hypothesis N12 : head1 <> head2.
+Hypothesis N1b : head1 <> b.
+Hypothesis N2b : head2 <> b.
+Hypothesis Z1 : head1 <> 0.
+Hypothesis Z2 : head2 <> 0.
+Hypothesis Zb : b <> 0.
+Hypothesis NU : NoDup (L1 ++ R1 ++ L2 ++ R2).
+Hypothesis FU : forall x, In x (L1 ++ R1 ++ L2 ++ R2) -> x <> head1 /\ x <> head2 /\ x <> b /\ x <> 0.
+Hypothesis D1 : dseg h 0 (L1 ++ head1 :: R1) 0.
+Hypothesis D2 : dseg h 0 (L2 ++ b :: head2 :: R2) 0.
+
+Lemma merge_step_lists :
+  let h' := merge_step h head1 head2 b in
+  dseg h' 0 (L1 ++ b :: head1 :: R1) 0 /\ dseg h' 0 (L2 ++ head2 :: R2) 0.
+Proof.
+  intros h'.
+  apply dseg_app in D1. destruct D1 as (D1a & D1h). simpl in D1a, D1h. destruct D1h as (E1p & E1n & D1b).
+  apply dseg_app in D2. destruct D2 as (D2a & D2h). simpl in D2a, D2h. destruct D2h as (Ebp & Ebn & E2p & E2n & D2b).
+  pose proof (lastd_cases L1) as LC1. pose proof (lastd_cases L2) as LCb.
+  set (p1 := lastd L1 0) in *. set (pb := lastd L2 0) in *.
+  assert (forall x, In x L1 -> In x (L1 ++ R1 ++ L2 ++ R2)) as I1 by (intros; rewrite !in_app_iff; tauto).
+  assert (forall x, In x R1 -> In x (L1 ++ R1 ++ L2 ++ R2)) as I2 by (intros; rewrite !in_app_iff; tauto).
+  assert (forall x, In x L2 -> In x (L1 ++ R1 ++ L2 ++ R2)) as I3 by (intros; rewrite !in_app_iff; tauto).
+  assert (forall x, In x R2 -> In x (L1 ++ R1 ++ L2 ++ R2)) as I4 by (intros; rewrite !in_app_iff; tauto).
+  assert (forall x, In x L1 -> In x R1 -> False) as d12.
+  { intros x A B. apply (NoDup_app_disj L1 (R1 ++ L2 ++ R2) x NU A). rewrite !in_app_iff; tauto. }
+  assert (forall x, In x L1 -> In x L2 -> False) as d13.
+  { intros x A B. apply (NoDup_app_disj L1 (R1 ++ L2 ++ R2) x NU A). rewrite !in_app_iff; tauto. }
+  assert (forall x, In x L1 -> In x R2 -> False) as d14.
+  { intros x A B. apply (NoDup_app_disj L1 (R1 ++ L2 ++ R2) x NU A). rewrite !in_app_iff; tauto. }
+  pose proof (NoDup_app_r _ _ NU) as NU2.
+  assert (forall x, In x R1 -> In x L2 -> False) as d23.
+  { intros x A B. apply (NoDup_app_disj R1 (L2 ++ R2) x NU2 A). rewrite !in_app_iff; tauto. }
+  assert (forall x, In x R1 -> In x R2 -> False) as d24.
+  { intros x A B. apply (NoDup_app_disj R1 (L2 ++ R2) x NU2 A). rewrite !in_app_iff; tauto. }
+  pose proof (NoDup_app_r _ _ NU2) as NU3.
+  assert (forall x, In x L2 -> In x R2 -> False) as d34 by (intros x A B; exact (NoDup_app_disj L2 R2 x NU3 A B)).
+  pose proof (NoDup_app_l _ _ NU) as ND1. pose proof (NoDup_app_l _ _ NU3) as ND3.
+  (* where p1 and pb live *)
+  assert (p1 <> head1 /\ p1 <> head2 /\ p1 <> b) as (P1a & P1b & P1c).
+  { destruct LC1 as [(_ & E)|(_ & Hin)]; [rewrite E; auto|]. destruct (FU _ (I1 _ Hin)) as (?&?&?&?). auto. }
+  assert (pb <> head1 /\ pb <> head2 /\ pb <> b) as (PBa & PBb & PBc).
+  { destruct LCb as [(_ & E)|(_ & Hin)]; [rewrite E; auto|]. destruct (FU _ (I3 _ Hin)) as (?&?&?&?). auto. }
+  assert (p1 = 0 \/ In p1 L1) as C1 by (destruct LC1 as [(_ & E)|(_ & Hin)]; auto).
+  assert (pb = 0 \/ In pb L2) as Cb by (destruct LCb as [(_ & E)|(_ & Hin)]; auto).
+  assert (p1 <> 0 -> pb <> 0 -> p1 <> pb) as P1B.
+  { intros A B E. destruct C1 as [|C1]; [auto|]. destruct Cb as [|Cb]; [auto|]. rewrite E in C1. exact (d13 _ C1 Cb). }
+  (* pointwise values of the new heap *)
+  assert (forall x, hprev h' x = if x =? head1 then b else if x =? b then p1 else if x =? head2 then pb else hprev h x) as HP.
+  { intros x. unfold h'. rewrite merge_step_prev by assumption. rewrite E1p, Ebp. reflexivity. }
+  assert (forall x, hnext h' x = if negb (p1 =? 0) && (x =? p1) then b else if x =? b then head1
+                                 else if negb (pb =? 0) && (x =? pb) then head2 else hnext h x) as HN.
+  { intros x. unfold h'. rewrite merge_step_next by assumption. rewrite E1p, Ebp. reflexivity. }
+  clearbody h'.
+  (* classes *)
+  assert (forall x, In x L1 -> hprev h' x = hprev h x) as PL1.
+  { intros x Hx. destruct (FU _ (I1 _ Hx)) as (?&?&?&?). rewrite HP. ev. }
+  assert (forall x, In x L1 -> x <> p1 -> hnext h' x = hnext h x) as NL1.
+  { intros x Hx Hn. destruct (FU _ (I1 _ Hx)) as (?&?&?&?). rewrite HN.
+    assert (pb = 0 \/ x <> pb) as [E|E] by (destruct Cb as [|Cb]; [auto|right; intro; subst; exact (d13 _ Hx Cb)]); [rewrite E|]; ev. }
+  assert (forall x, In x R1 -> hprev h' x = hprev h x /\ hnext h' x = hnext h x) as FR1.
+  { intros x Hx. destruct (FU _ (I2 _ Hx)) as (?&?&?&?). rewrite HP, HN.
+    assert (pb = 0 \/ x <> pb) as [E|E] by (destruct Cb as [|Cb]; [auto|right; intro; subst; exact (d23 _ Hx Cb)]);
+    assert (p1 = 0 \/ x <> p1) as [E'|E'] by (destruct C1 as [|C1]; [auto|right; intro; subst; exact (d12 _ C1 Hx)]);
+    try rewrite E; try rewrite E'; split; ev. }
+  assert (forall x, In x L2 -> hprev h' x = hprev h x) as PL2.
+  { intros x Hx. destruct (FU _ (I3 _ Hx)) as (?&?&?&?). rewrite HP. ev. }
+  assert (forall x, In x L2 -> x <> pb -> hnext h' x = hnext h x) as NL2.
+  { intros x Hx Hn. destruct (FU _ (I3 _ Hx)) as (?&?&?&?). rewrite HN.
+    assert (p1 = 0 \/ x <> p1) as [E|E] by (destruct C1 as [|C1]; [auto|right; intro; subst; exact (d13 _ C1 Hx)]); [rewrite E|]; ev. }
+  assert (forall x, In x R2 -> hprev h' x = hprev h x /\ hnext h' x = hnext h x) as FR2.
+  { intros x Hx. destruct (FU _ (I4 _ Hx)) as (?&?&?&?). rewrite HP, HN.
+    assert (pb = 0 \/ x <> pb) as [E|E] by (destruct Cb as [|Cb]; [auto|right; intro; subst; exact (d34 _ Cb Hx)]);
+    assert (p1 = 0 \/ x <> p1) as [E'|E'] by (destruct C1 as [|C1]; [auto|right; intro; subst; exact (d14 _ C1 Hx)]);
+    try rewrite E; try rewrite E'; split; ev. }
+  split.
+  - (* destination list: L1 ++ b :: head1 :: R1 *)
+    apply dseg_app. split.
+    + simpl hd. apply dseg_retarget with (h := h) (q := head1); auto.
+      intros NE. fold p1. rewrite HN.
+      assert (p1 <> 0) by (destruct LC1 as [(E & _)|(_ & Hin)]; [congruence|]; destruct (FU _ (I1 _ Hin)) as (?&?&?&?); auto).
+      ev.
+    + fold p1. simpl. repeat split.
+      * rewrite HP. ev.
+      * rewrite HN. destruct (Z.eqb_spec p1 0) as [E|E]; [rewrite E|]; ev.
+      * rewrite HP. ev.
+      * rewrite HN, E1n.
+        assert (p1 = 0 \/ head1 <> p1) as [E|E] by (destruct (Z.eq_dec p1 0); auto); 
+        assert (pb = 0 \/ head1 <> pb) as [E'|E'] by (destruct (Z.eq_dec pb 0); auto);
+        try rewrite E; try rewrite E'; ev.
+      * apply dseg_frame with (h := h); auto.
+  - (* source list: L2 ++ head2 :: R2 *)
+    apply dseg_app. split.
+    + simpl hd. apply dseg_retarget with (h := h) (q := b); auto.
+      intros NE. fold pb. rewrite HN.
+      assert (pb <> 0) by (destruct LCb as [(E & _)|(_ & Hin)]; [congruence|]; destruct (FU _ (I3 _ Hin)) as (?&?&?&?); auto).
+      destruct (Z.eq_dec p1 0) as [E|E]; [rewrite E|pose proof (P1B E H)]; ev.
+    + fold pb. simpl. repeat split.
+      * rewrite HP. ev.
+      * rewrite HN, E2n.
+        assert (p1 = 0 \/ head2 <> p1) as [E|E] by (destruct (Z.eq_dec p1 0); auto);
+        assert (pb = 0 \/ head2 <> pb) as [E'|E'] by (destruct (Z.eq_dec pb 0); auto);
+        try rewrite E; try rewrite E'; ev.
+      * apply dseg_frame with (h := h); auto.
+Qed.
+End Step.
+
+Lemma NoDup_app_intro (A B : list Z) : NoDup A -> NoDup B -> (forall x, In x A -> In x B -> False) -> NoDup (A ++ B).
+Proof.
+  induction A as [|a A IH]; simpl; intros NA NB D; [exact NB|].
+  inversion NA as [|? ? Na NA']; subst. constructor.
+  - rewrite in_app_iff. intros [H|H]; [exact (Na H)|exact (D a (or_introl eq_refl) H)].
+  - apply IH; auto. intros x HA HB. exact (D x (or_intror HA) HB).
+Qed.
+
+Lemma NoDup_mid_remove (A B : list Z) x : NoDup (A ++ x :: B) -> NoDup (A ++ B) /\ ~ In x (A ++ B).
+Proof. apply NoDup_remove. Qed.
+
+(* the loop of MergeFrom moves the full buffers L2 of the source, last first, in front of the destination head *)
+Lemma merge_loop_spec head1 head2 R1 R2 :
+  head1 <> head2 -> head1 <> 0 -> head2 <> 0 ->
+  forall L2 h L1 fuel,
+  (length L2 < fuel)%nat ->
+  NoDup (L1 ++ R1 ++ L2 ++ R2) ->
+  (forall x, In x (L1 ++ R1 ++ L2 ++ R2) -> x <> head1 /\ x <> head2 /\ x <> 0) ->
+  dseg h 0 (L1 ++ head1 :: R1) 0 -> dseg h 0 (L2 ++ head2 :: R2) 0 ->
+  exists h', merge_loop fuel h head1 head2 = Some h' /\
+             dseg h' 0 (L1 ++ rev L2 ++ head1 :: R1) 0 /\ dseg h' 0 (head2 :: R2) 0.
+Proof.
+  intros N12 Z1 Z2. induction L2 as [|b L2 IH] using rev_ind; intros h L1 fuel Hf NU FU D1 D2.
+  - destruct fuel as [|f]; [simpl in Hf; lia|]. simpl in D2. destruct D2 as (E2p & E2n & D2r).
+    simpl. rewrite E2p. simpl. exists h. split; [reflexivity|]. split; [exact D1|]. simpl. auto.
+  - destruct fuel as [|f]; [simpl in Hf; lia|].
+    rewrite app_length in Hf. simpl in Hf.
+    assert (hprev h head2 = b) as Eb.
+    { rewrite <- app_assoc in D2. apply dseg_app in D2. destruct D2 as (_ & D2). simpl in D2.
+      destruct D2 as (_ & _ & E & _). rewrite lastd_app in E || idtac. exact E. }
+    assert (In b (L1 ++ R1 ++ (L2 ++ [b]) ++ R2)) as Hb by (rewrite !in_app_iff; simpl; tauto).
+    destruct (FU b Hb) as (Nb1 & Nb2 & Nb0).
+    cbn [merge_loop]. rewrite Eb. destruct (Z.eqb_spec b 0) as [|_]; [congruence|].
+    (* distinctness after taking b out *)
+    assert (NoDup (L1 ++ R1 ++ L2 ++ R2) /\ ~ In b (L1 ++ R1 ++ L2 ++ R2)) as (NU' & Nbin).
+    { replace (L1 ++ R1 ++ (L2 ++ [b]) ++ R2) with ((L1 ++ R1 ++ L2) ++ b :: R2) in NU by (rewrite <- !app_assoc; reflexivity).
+      apply NoDup_remove in NU. rewrite <- !app_assoc in NU. exact NU. }
+    assert (forall x, In x (L1 ++ R1 ++ L2 ++ R2) -> x <> head1 /\ x <> head2 /\ x <> b /\ x <> 0) as FU'.
+    { intros x Hx. assert (In x (L1 ++ R1 ++ (L2 ++ [b]) ++ R2)) as Hx' by (rewrite !in_app_iff in *; simpl; tauto).
+      destruct (FU x Hx') as (?&?&?). repeat split; auto. intro; subst; exact (Nbin Hx). }
+    assert (dseg h 0 (L2 ++ b :: head2 :: R2) 0) as D2' by (rewrite <- app_assoc in D2; exact D2).
+    destruct (merge_step_lists h L1 R1 L2 R2 b head1 head2 N12 (not_eq_sym Nb1) (not_eq_sym Nb2) Z1 Z2 Nb0 NU' FU' D1 D2') as (S1 & S2).
+    set (h1 := merge_step h head1 head2 b) in *.
+    destruct (IH h1 (L1 ++ [b]) f ltac:(lia)) as (h' & E' & R1' & R2').
+    + rewrite <- app_assoc. simpl. apply Permutation_NoDup with (l := b :: L1 ++ R1 ++ L2 ++ R2).
+      * apply Permutation_middle.
+      * constructor; assumption.
+    + intros x Hx. apply FU. rewrite !in_app_iff in *. simpl in *. tauto.
+    + rewrite <- app_assoc. exact S1.
+    + exact S2.
+    + exists h'. split; [exact E'|]. split; [|exact R2'].
+      rewrite rev_unit. rewrite <- app_assoc in R1'. exact R1'.
+Qed.
+
+Lemma last_loop_spec h : forall l x p fuel, (length l < fuel)%nat -> ~ In 0 l -> dseg h p (x :: l) 0 ->
+  last_loop fuel h x = Some (lastd l x).
+Proof.
+  induction l as [|y t IH]; intros x p fuel Hf N0 D; (destruct fuel as [|f]; [simpl in Hf; lia|]); simpl in D.
+  - destruct D as (_ & En & _). simpl. rewrite En. reflexivity.
+  - destruct D as (_ & En & D'). cbn [last_loop]. rewrite En. simpl hd.
+    destruct (Z.eqb_spec y 0) as [E|_]; [exfalso; apply N0; left; exact E|].
+    simpl lastd. apply (IH y x f); [simpl in Hf; lia|intro; apply N0; right; assumption|exact D'].
+Qed.
+
+(* dll_inv for MergeFrom (both pools non-empty): the result is ONE well-formed doubly linked list that contains every
+   buffer of both pools exactly once: full buffers of the destination, full buffers of the source (reversed), the
+   destination's buffers with free blocks (head first), then the source's. *)
+Theorem merge_from_dll h L1 R1 L2 R2 head1 head2 :
+  dll h (L1 ++ head1 :: R1) -> dll h (L2 ++ head2 :: R2) ->
+  (forall x, In x (L1 ++ head1 :: R1) -> In x (L2 ++ head2 :: R2) -> False) ->
+  exists h',
+    merge_from (S (length (L1 ++ head1 :: R1) + length (L2 ++ head2 :: R2))) h head1 head2 = Some (h', head1, 0) /\
+    dll h' (L1 ++ rev L2 ++ head1 :: R1 ++ head2 :: R2).
+Proof.
+  intros (ND1 & NZ1 & D1) (ND2 & NZ2 & D2) Dis.
+  assert (head1 <> 0) as Z1 by (intro E; apply NZ1; rewrite in_app_iff; simpl; auto).
+  assert (head2 <> 0) as Z2 by (intro E; apply NZ2; rewrite in_app_iff; simpl; auto).
+  assert (head1 <> head2) as N12.
+  { intro E. apply (Dis head1); rewrite in_app_iff; simpl; auto. }
+  destruct (NoDup_remove _ _ _ ND1) as (ND1' & Nh1). destruct (NoDup_remove _ _ _ ND2) as (ND2' & Nh2).
+  assert (NoDup (L1 ++ R1 ++ L2 ++ R2)) as NU.
+  { rewrite app_assoc. apply NoDup_app_intro; auto. intros x H1 H2. apply (Dis x); rewrite in_app_iff in *; simpl; tauto. }
+  assert (forall x, In x (L1 ++ R1 ++ L2 ++ R2) -> x <> head1 /\ x <> head2 /\ x <> 0) as FU.
+  { intros x Hx. rewrite !in_app_iff in Hx. repeat split; intro E; subst.
+    - destruct Hx as [H|[H|[H|H]]].
+      + apply Nh1. rewrite in_app_iff; auto.
+      + apply Nh1. rewrite in_app_iff; auto.
+      + apply (Dis head1); rewrite in_app_iff; simpl; auto.
+      + apply (Dis head1); rewrite in_app_iff; simpl; auto.
+    - destruct Hx as [H|[H|[H|H]]].
+      + apply (Dis head2); rewrite in_app_iff; simpl; auto.
+      + apply (Dis head2); rewrite in_app_iff; simpl; auto.
+      + apply Nh2. rewrite in_app_iff; auto.
+      + apply Nh2. rewrite in_app_iff; auto.
+    - destruct Hx as [H|[H|[H|H]]].
+      + apply NZ1. rewrite in_app_iff; auto.
+      + apply NZ1. rewrite in_app_iff; simpl; auto.
+      + apply NZ2. rewrite in_app_iff; auto.
+      + apply NZ2. rewrite in_app_iff; simpl; auto. }
+  set (fuel := S (length (L1 ++ head1 :: R1) + length (L2 ++ head2 :: R2))).
+  assert (length L2 < fuel)%nat as Hf by (unfold fuel; rewrite !app_length; simpl; lia).
+  destruct (merge_loop_spec head1 head2 R1 R2 N12 Z1 Z2 L2 h L1 fuel Hf NU FU D1 D2) as (h1 & E1 & S1 & S2).
+  unfold merge_from, merge_gen.
+  destruct (Z.eqb_spec head2 0) as [|_]; [congruence|]. destruct (Z.eqb_spec head1 0) as [|_]; [congruence|].
+  rewrite E1.
+  (* the walk to the last buffer of the destination list *)
+  rewrite app_assoc in S1. apply dseg_app in S1. destruct S1 as (S1a & S1b).
+  assert (~ In 0 R1) as NZR by (intro; apply NZ1; rewrite in_app_iff; simpl; auto).
+  assert (length R1 < fuel)%nat as Hf2 by (unfold fuel; rewrite !app_length; simpl; lia).
+  rewrite (last_loop_spec h1 R1 head1 _ fuel Hf2 NZR S1b).
+  set (lst := lastd R1 head1).
+  exists (set_prev (set_next h1 lst head2) head2 lst). split; [reflexivity|].
+  assert (In lst (head1 :: R1)) as Hlst.
+  { unfold lst. destruct R1 as [|y t]; [left; reflexivity|right; apply lastd_in; congruence]. }
+  assert (lst <> head2) as Nl2.
+  { intro E. apply (Dis head2); [rewrite in_app_iff; right; rewrite <- E; exact Hlst|rewrite in_app_iff; simpl; auto]. }
+  assert (forall x, In x (L2 ++ head2 :: R2) -> x <> lst) as NlS.
+  { intros x Hx E. subst x. apply (Dis lst); [rewrite in_app_iff; right; exact Hlst|exact Hx]. }
+  (* the resulting invariant *)
+  assert (Permutation ((L1 ++ head1 :: R1) ++ (L2 ++ head2 :: R2)) (L1 ++ rev L2 ++ head1 :: R1 ++ head2 :: R2)) as P.
+  { rewrite <- app_assoc. apply Permutation_app_head.
+    change (head1 :: R1 ++ head2 :: R2) with ((head1 :: R1) ++ head2 :: R2).
+    rewrite (app_assoc (rev L2)). rewrite (app_assoc (head1 :: R1) L2).
+    apply Permutation_app_tail.
+    rewrite Permutation_app_comm. apply Permutation_app_tail. apply Permutation_rev. }
+  split; [|split].
+  - eapply Permutation_NoDup; [exact P|]. apply NoDup_app_intro; auto.
+  - intro H0. apply (Permutation_in _ (Permutation_sym P)) in H0.
+    rewrite in_app_iff in H0. destruct H0; auto.
+  - replace (L1 ++ rev L2 ++ head1 :: R1 ++ head2 :: R2) with (((L1 ++ rev L2) ++ head1 :: R1) ++ head2 :: R2)
+      by (rewrite <- !app_assoc; reflexivity).
+    apply dseg_app. split.
+    + simpl hd. apply dseg_app. split.
+      * simpl hd. apply dseg_frame with (h := h1); [|exact S1a].
+        intros x Hx. simpl. unfold upd.
+        assert (x <> head2) as A1.
+        { intro; subst. rewrite in_app_iff in Hx. destruct Hx as [Hx|Hx].
+          - destruct (FU head2) as (_ & F & _); [rewrite !in_app_iff; auto|congruence].
+          - apply in_rev in Hx. destruct (FU head2) as (_ & F & _); [rewrite !in_app_iff; auto|congruence]. }
+        assert (x <> lst) as A2.
+        { intro; subst. rewrite in_app_iff in Hx. destruct Hlst as [El|Hl].
+          - rewrite <- El in Hx. destruct Hx as [Hx|Hx]; [|apply in_rev in Hx];
+            (destruct (FU head1) as (F & _); [rewrite !in_app_iff; auto|congruence]).
+          - destruct Hx as [Hx|Hx]; [|apply in_rev in Hx].
+            + apply (NoDup_app_disj L1 (R1 ++ L2 ++ R2) lst NU Hx). rewrite in_app_iff; auto.
+            + apply (NoDup_app_disj R1 (L2 ++ R2) lst (NoDup_app_r _ _ NU) Hl). rewrite in_app_iff; auto. }
+        destruct (Z.eqb_spec x head2); [congruence|]. destruct (Z.eqb_spec x lst); [congruence|]. auto.
+      * apply dseg_retarget with (h := h1) (q := 0); auto.
+        -- apply NoDup_app_r in ND1. exact ND1.
+        -- intros x Hx. simpl. unfold upd. destruct (Z.eqb_spec x head2) as [E|]; [|reflexivity].
+           subst. exfalso. apply (Dis head2); rewrite in_app_iff; simpl; auto; tauto.
+        -- intros x Hx Hn. simpl. unfold upd. simpl lastd in Hn. fold lst in Hn. destruct (Z.eqb_spec x lst); [congruence|reflexivity].
+        -- intros _. simpl lastd. fold lst. simpl. unfold upd. rewrite Z.eqb_refl. reflexivity.
+    + rewrite lastd_app2. simpl lastd. fold lst.
+      apply dseg_rehead with (h := h1) (p := 0); auto.
+      * intros x Hx. simpl. unfold upd. destruct (Z.eqb_spec x lst) as [E|]; [|reflexivity].
+        exfalso. apply (NlS x); [rewrite in_app_iff; right; exact Hx|exact E].
+      * intros x Hx. simpl in Hx. simpl. unfold upd. destruct (Z.eqb_spec x head2) as [E|]; [|reflexivity].
+        subst. exfalso. apply NoDup_app_r in ND2. inversion ND2; subst. auto.
+      * intros _. simpl. unfold upd. rewrite Z.eqb_refl. reflexivity.
+Qed.
+
 (* ---------- concrete runs: the fixed MergeFrom keeps the invariant, the pre-fix code does not ---------- *)
 Definition merged_list (loop : nat -> heap -> Z -> Z -> option heap) (l1 : list Z) (head1 : Z) (l2 : list Z) (head2 : Z)
   : option (list Z * Z) :=
@@ -122,4 +415,17 @@ Lemma merge_prefix_refuted :
 Proof.
   exists [1], 1, [2; 3], 3, [1; 3], 2. vm_compute.
   repeat split; auto. intros [H|[H|[]]]; discriminate H.
+Qed.
+
+(* non-vacuity of the hypotheses of merge_from_dll *)
+Lemma dll_example :
+  dll (heap_of_lists [1; 2] [3; 4]) ([1] ++ 2 :: []) /\ dll (heap_of_lists [1; 2] [3; 4]) ([3] ++ 4 :: []) /\
+  (forall x, In x ([1] ++ 2 :: []) -> In x ([3] ++ 4 :: []) -> False).
+Proof.
+  unfold dll. simpl. repeat split; try reflexivity.
+  - repeat constructor; simpl; intuition discriminate.
+  - intuition discriminate.
+  - repeat constructor; simpl; intuition discriminate.
+  - intuition discriminate.
+  - intros x [H|[H|[]]] [H'|[H'|[]]]; subst; discriminate.
 Qed.
